@@ -820,6 +820,11 @@ report_corruption(ldb_reporter_t *report, size_t bytes, int status) {
 
   if (report->status != NULL && *report->status == LDB_OK)
     *report->status = status;
+
+  /* A failed read is not corruption: remember it even when
+     corruption is being ignored (see ldb_recover_log_file). */
+  if (status != LDB_CORRUPTION && *report->io_status == LDB_OK)
+    *report->io_status = status;
 }
 
 static int
@@ -836,6 +841,7 @@ ldb_recover_log_file(ldb_t *db, uint64_t log_number,
   ldb_slice_t record;
   ldb_batch_t batch;
   int compactions = 0;
+  int io_rc = LDB_OK;
   uint64_t valid_end = 0;
   ldb_memtable_t *mem = NULL;
   ldb_reader_t reader;
@@ -849,13 +855,16 @@ ldb_recover_log_file(ldb_t *db, uint64_t log_number,
   rc = ldb_seqfile_create(fname, &file);
 
   if (rc != LDB_OK) {
-    ldb_maybe_ignore_error(db, &rc);
+    /* Never ignored: skipping a log that merely could not be opened
+       right now would drop acknowledged writes, let new writes reuse
+       their sequence numbers, and delete the log afterwards. */
     return rc;
   }
 
   /* Create the log reader. */
   reporter.fname = fname;
   reporter.status = (db->options.paranoid_checks ? &rc : NULL);
+  reporter.io_status = &io_rc;
   reporter.info_log = db->options.info_log;
   reporter.corruption = report_corruption;
 
@@ -923,6 +932,11 @@ ldb_recover_log_file(ldb_t *db, uint64_t log_number,
   ldb_batch_clear(&batch);
   ldb_reader_clear(&reader);
   ldb_rfile_destroy(file);
+
+  /* Never ignored: the records behind a failed read are intact on
+     disk, and the log would be deleted once recovery completes. */
+  if (rc == LDB_OK)
+    rc = io_rc;
 
   /* See if we should keep reusing the last log file. */
   if (rc == LDB_OK && db->options.reuse_logs && last_log && compactions == 0) {
